@@ -94,9 +94,13 @@ type fileModel struct {
 
 func (*fileModel) isModel() {}
 
+// gzWriterModel: like the real gzip.Writer, nothing of the payload
+// reaches the file before Close (the compressor buffers; only the
+// 10-byte header is written earlier).
 type gzWriterModel struct {
-	f      *fileModel
-	closed bool
+	f       *fileModel
+	closed  bool
+	pending *jsonBlob
 }
 
 func (*gzWriterModel) isModel() {}
@@ -359,6 +363,17 @@ func init() {
 			return iface{}
 		}
 		w.closed = true
+		if w.pending != nil {
+			if w.f == nil || w.f.closed {
+				return i.pathErr("write", "?", "file already closed", false)
+			}
+			if !i.env.fsm().step("write", w.f.path) {
+				return i.pathErr("write", w.f.path, "input/output error", false)
+			}
+			// the file may have been renamed meanwhile: the write goes to the same inode
+			w.f.node.data, w.f.node.gz = w.pending, true
+			w.pending = nil
+		}
 		return iface{}
 	})
 	reg("io.Copy", func(i *interpreter, fr *frame, args []value) value {
@@ -390,7 +405,13 @@ func init() {
 		case *fileModel:
 			fm = d
 		case *gzWriterModel:
-			fm, gz = d.f, true
+			if d.closed || d.f == nil || d.f.closed || !d.f.write {
+				return tuple{int64(0), i.pathErr("write", "?", "file already closed", false)}
+			}
+			// buffered by the compressor until Close; the file holds a bare gzip header
+			d.pending = blob
+			d.f.node.gz = true
+			return tuple{int64(1), iface{}}
 		default:
 			unsupportedf("io.Copy to %T", dst.v)
 		}
